@@ -173,6 +173,7 @@ func cmdRun(args []string) int {
 	secsFlag := fs.Int("secs", 0, "override time budget (thorough)")
 	famFlag := fs.String("family", "", "restrict to one family")
 	noMin := fs.Bool("nomin", false, "skip minimisation")
+	dumpAll := fs.Bool("dumpall", false, "print every violation found (debugging)")
 	workers := fs.Int("workers", runtime.NumCPU(), "parallel runs")
 	fs.Parse(args)
 	if t := os.Getenv("VERIF_TIER"); t != "" && *tier == "" {
@@ -334,6 +335,11 @@ func cmdRun(args []string) int {
 			rc[f.v.Rule]++
 		}
 		fmt.Printf("vcheck: violations by rule: %v\n", rc)
+		if *dumpAll {
+			for _, f := range founds {
+				fmt.Printf("DUMP seed=%d %s: %s\n", f.res.Seed, f.v.Rule, trunc(strings.ReplaceAll(f.v.Detail, "\n", " | "), 400))
+			}
+		}
 		dc := map[string]int{}
 		for _, f := range founds {
 			if f.v.Rule == "panic" {
